@@ -53,21 +53,21 @@ def joinSp (l : List String) : String := l.foldl (fun s x => s ++ " " ++ x) ""
 
 /-- tree tokens: `E tag nattr (name value)* ... X` / `V text` / `C comment`; the model maps every attribute value and
 text through the write→read composition and leaves the structure alone -/
-partial def treeMap (cond : Bool) : List String → List String
+partial def treeMap (file cond : Bool) : List String → List String
   | "E" :: tag :: na :: rest =>
     let n := na.toNat!
     let rec attrs : Nat → List String → List String × List String
       | 0, r => ([], r)
       | k + 1, nm :: v :: r =>
-        let v' := match attrRoundTrip cond (unhexStr v) with | some x => hexStr x | none => "ERR"
+        let v' := match (if file then attrRoundTripFile cond (unhexStr v) else attrRoundTrip cond (unhexStr v)) with | some x => hexStr x | none => "ERR"
         let (a, r') := attrs k r
         (nm :: v' :: a, r')
       | _, r => ([], r)
     let (a, r) := attrs n rest
-    "E" :: tag :: na :: a ++ treeMap cond r
+    "E" :: tag :: na :: a ++ treeMap file cond r
   | "V" :: t :: rest =>
-    (match textRoundTrip cond (unhexStr t) with | some x => "V" :: hexStr x :: [] | none => ["V", "ERR"]) ++ treeMap cond rest
-  | x :: rest => x :: treeMap cond rest
+    (match (if file then textRoundTripFile cond (unhexStr t) else textRoundTrip cond (unhexStr t)) with | some x => "V" :: hexStr x :: [] | none => ["V", "ERR"]) ++ treeMap file cond rest
+  | x :: rest => x :: treeMap file cond rest
   | [] => []
 
 def answer (toks : List String) : List String :=
@@ -94,6 +94,22 @@ def answer (toks : List String) : List String :=
       match readFixed (convScalar ty) k.toNat! s with
       | some (vs, _) => ["O unf 1" ++ joinSp vs]
       | none => ["O unf 0"]
+    else if kind == "S" then
+      -- SymMat<M>: read a full M×M Mat, then `isNumericallySymmetric` (every pair incl. the diagonal compared through
+      -- a difference, so a non-finite entry fails), then keep the lower triangle
+      match readFixed (convScalar ty) k.toNat! s with
+      | some (vs, _) =>
+        let m := k.toNat!.sqrt
+        let ok := (List.range m).all (fun i => (List.range m).all (fun j =>
+          let a := vs.getD (i * m + j) ""; let b := vs.getD (j * m + i) ""
+          a == b && a != "nan" && a != "b7ff0000000000000" && a != "bfff0000000000000"))
+        if ok then ["O unf 1" ++ joinSp vs] else ["O unf 0"]
+      | none => ["O unf 0"]
+    else if kind == "R" then
+      -- RowVector_: `Vector_<E> vt(~v); return readUnformatted(in, vt);` reads into a copy: success, nothing stored
+      match readArray (convScalar ty) k.toNat! s with
+      | some _ => ["O unf 1 0"]
+      | none => ["O unf 0"]
     else
       match readArray (convScalar ty) k.toNat! s with
       | some es => ["O unf 1 " ++ toString es.length ++ joinSp es.flatten]
@@ -108,8 +124,11 @@ def answer (toks : List String) : List String :=
     [match r with | some t => "O xdec 1 " ++ hexStr t | none => "O xdec 0"]
   | "xtree" :: cond :: rest =>
     -- one undecodable value makes the whole document unreadable (`Xml::readFromString` throws)
-    let out := treeMap (cond == "1") rest
+    let out := treeMap false (cond == "1") rest
     [if out.contains "ERR" then "O xtree EXC" else "O xtree" ++ joinSp out]
+  | "xtreeF" :: cond :: rest =>
+    let out := treeMap true (cond == "1") rest
+    [if out.contains "ERR" then "O xtreeF EXC" else "O xtreeF" ++ joinSp out]
   | fn :: _ => ["O " ++ fn ++ " ERR"]
   | [] => ["O ERR"]
 
